@@ -3,7 +3,7 @@ import itertools
 from .lib import *
 
 RULE = ("exhaustive in both tiers: 9 standard methods x every status 300..399 x both auth policies x response with / without body "
-        "(3600 flows), plus statuses 200, 299, 400 as negative cases for entering the redirect state, plus the same cells reached on two "
+        "(3600 flows; boundary statuses also with a close-delimited body), plus statuses 200, 299, 400 as negative cases for entering the redirect state, plus the same cells reached on two "
         "other paths (body method whose Expect: 100-continue is refused by the 3xx response itself; body-less method with "
         "send_body_despite_method) for the boundary statuses (thorough: every 3xx). Each flow is driven to the "
         "state after the response (through the body when there is one), asked for its status, followed with as_new_flow, and the "
@@ -35,7 +35,9 @@ def build(method, status, policy, with_body, path="plain"):
         ops = [op_new(method, "1.1", "http", "a.test", "/o", [("content-length", "0")]), "proceed", "write_head #4096", "proceed", "write_body x #0", "proceed"]
     else:
         ops = [op_new(method, "1.1", "http", "a.test", "/o", []), "proceed", "write_head #4096", "proceed"]
-    if with_body:
+    if with_body == "close":
+        fields.append((b"Transfer-Encoding", b"gzip"))       # a close-delimited body: the redirect state is entered after it all the same
+    elif with_body:
         fields.append((b"Content-Length", b"3"))
     else:
         fields.append((b"Content-Length", b"0"))
@@ -54,6 +56,8 @@ def generate(rng, tier, mult):
     # the table is a function of the METHOD: the same cells reached with the body flag cleared (Expect refused by the redirect
     # itself) or set without a body method (send_body_despite_method)
     extra_status = list(range(300, 400)) if tier == "thorough" else [300, 301, 302, 303, 304, 305, 307, 308, 399]
+    for m, s, p in itertools.product(METHODS, extra_status + [200], ["never", "same_host"]):
+        out.append(build(m, s, p, "close"))
     for m, s, p, b in itertools.product(BODY_METHODS, extra_status, ["never", "same_host"], [False, True]):
         out.append(build(m, s, p, b, "refused"))
     for m, s, p, b in itertools.product(["GET", "HEAD", "DELETE", "OPTIONS", "TRACE"], extra_status, ["never", "same_host"], [False, True]):
